@@ -326,7 +326,15 @@ impl<L: Language, N: Analysis<L>> EGraph<L, N> {
                     proven_perm.check();
                 }
                 let grp = &mut self.classes.get_mut(&i).unwrap().group;
-                if grp.add(proven_perm) {
+                #[cfg(slotted_egraphs_verif)]
+                let verif_before: (Vec<SlotMap>, SlotMap) = (grp.generators().into_iter().map(|p| p.elem).collect(), proven_perm.elem.clone());
+                let grew = grp.add(proven_perm);
+                #[cfg(slotted_egraphs_verif)]
+                {
+                    let after: Vec<SlotMap> = grp.generators().into_iter().map(|p| p.elem).collect();
+                    crate::verif::group_add(i.0, None, &verif_before.1, &verif_before.0, &after);
+                }
+                if grew {
                     self.touched_class(i, PendingType::Full);
                 }
             }
